@@ -36,8 +36,18 @@ granularity of effects) follows the schedule the run followed; trace, raised, di
 state at every crash point are compared; under the sequential schedule the concurrent model is compared with
 `saveShardedAll`. A scheduler that finds every thread blocked (or a thread that never comes back) is a
 `nontermination:det-scheduler:*` failure; a case that exceeds its time guard a `nontermination:case:*` failure.
-fd fast paths: a kernel-level fault stream (`fsize`: RLIMIT_FSIZE cuts a write short and fails it inside numpy's
-tofile / copy_file_range / the buffered flush), oracle only.
+Two levels (wave 4): family `sharded-nest` = concurrent shard drivers with max_workers >= 3 * shards, so that every shard
+gets >= 2 inner workers and a shard with more than one tensor uses `_write_parallel`; both pools run under the same
+deterministic scheduler; every effect is attributed to (shard, inner worker = number of its handle | driver thread, task);
+the model `saveShardedNest` (`asave.nest`, Model/AtomicSaveNest.lean) follows the two-level schedule the run followed
+(fault at every effect index: exception, BaseException, process exit, fault sequences); trace, raised, directory, leftovers
+per shard, state at every crash point, the hypothesis `jobOk` and the complete bytes per shard (`nBytes`) are compared.
+Faulted writer blocks (every family with max_workers): after the function returned or raised the harness lets every worker
+that is still in the middle of a task run on (deterministic scheduler) / joins the pool threads (real pool): an effect
+observed then is a failing input `*:effect-after-return`; a task that was started and neither ran to its end nor failed
+before its handle was closed is a failing input `*:task-abandoned` (trace language of faulted blocks).
+fd fast paths: a kernel-level fault stream (`fsize`: RLIMIT_FSIZE cuts a write short and fails it inside
+copy_file_range / the buffered flush) at EVERY byte position of saves of <= 64 bytes, oracle only.
 Oracle-only: parallel writer / concurrent shard drivers under the REAL pool when a fault is injected (post-state
 compared for single faults), fd fast paths, a directory as destination, tensors that fail by themselves, os.path
 calls as fault points, cyclic links.
@@ -90,6 +100,9 @@ THEOREMS = [
     "IrVerif.AtomicSave.C08_sharded_concurrent_crash",
     "IrVerif.AtomicSave.C08_sharded_concurrent_crash_serial",
     "IrVerif.AtomicSave.C08_sharded_concurrent_exception",
+    "IrVerif.AtomicSave.C08_sharded_concurrent_nested_crash",
+    "IrVerif.AtomicSave.C08_nested_bytes_serial",
+    "IrVerif.AtomicSave.C08_nested_bytes_parallel",
 ]
 ASSUMPTIONS = [
     "os.replace is atomic; tempfile.mkdtemp returns a directory that did not exist (built into the model's Path type; "
@@ -107,6 +120,11 @@ ASSUMPTIONS = [
     "call; the shim flags every effect that addresses a path other than the caller's own temporary path or destination); the inode "
     "number of a temporary file is a driver-local name, os.replace publishes bytes and mode under the destination name; hypotheses of "
     "C08_sharded_concurrent_exception (every driver finished, no clean-up call failed) are evaluated per run (hyp_conc_*)",
+    "two-level model (inner parallel writers inside concurrent shards): an idle inner worker may take ANY queued task at the moment of "
+    "its first effect (the real pool hands tasks out FIFO at moments that are no effects: every real schedule is one of the model's); "
+    "locks and the byte budget only remove interleavings and are not modelled; hypothesis jobOk of C08_sharded_concurrent_nested_crash "
+    "(the prelude creates the file, task ranges inside the preallocated size, overlapping ranges agree) is decidable and evaluated per "
+    "compared run (hyp_nest_jobOk)",
 ]
 
 CRASH_RC = 17
@@ -169,9 +187,13 @@ class Shim:
         self.shard_order: list = []  # sharded saves: shard destinations in the order their saves started
         self.who: list = []  # concurrent shard drivers: the shard (job index) that performed each effect
         self.shards: dict = {}  # job index -> {"base", "dir", "dest", "name", "tmpdir"}
+        self.sub: list = []  # two-level runs: the handle number of the inner worker that performed each effect (None = the driver thread)
+        self.task: list = []  # two-level runs: the number of the inner task (`_write_one(index)`) the thread is working on
+        self.returned_at = None  # number of effects when the function under test returned / raised
         import threading
 
         self.lock = threading.Lock()
+        self.tls = threading.local()  # inner worker thread -> the number of the handle it opened last
 
     def point(self, ev, partial=None, payload=None, who=None):
         sc = _SCHED[0]
@@ -183,6 +205,8 @@ class Shim:
             failed = idx in self.faults
             self.events.append(list(ev) + [failed])
             self.who.append(who)
+            self.sub.append(getattr(self.tls, "wid", None))
+            self.task.append(getattr(_TASK, "idx", None))
             if payload is not None:
                 self.payload[idx] = payload
         if failed:
@@ -411,6 +435,14 @@ def install(shim: Shim):
 
         def sopen(path, mode="r", *a, **kw):  # noqa: F811
             k = k_of(path)
+            if k is not None and os.fspath(path) == tfile(k) and mode == "r+b":
+                # an inner worker of shard k opens its own handle (handles are numbered per shard)
+                with shim.lock:
+                    wid = shim.shards[k].get("nw", 0)
+                    shim.shards[k]["nw"] = wid + 1
+                shim.tls.wid = wid
+                shim.point(["openw", wid], who=k)
+                return CountingFile(shim, open(path, mode, *a, **kw), wid, who=k)
             ok = k is not None and os.fspath(path) == tfile(k) and mode == "wb"
             shim.point(["open"] if ok else ["open!", os.path.basename(os.fspath(path)), mode], who=k)
             return CountingFile(shim, open(path, mode, *a, **kw), who=k)
@@ -580,6 +612,9 @@ class Sched:
 
 
 _SCHED: list = [None]
+import threading as _threading
+
+_TASK = _threading.local()  # deterministic executor: the integer argument of the task the thread runs (`_write_one(index)`)
 
 
 class DetLock:
@@ -764,6 +799,7 @@ class DetExecutor:
                 if self.queue:
                     f = self.queue.pop(0)
                     f.state = "running"
+                    _TASK.idx = f.a[0] if (f.a and isinstance(f.a[0], int)) else None
                     try:
                         f.value = f.fn(*f.a, **f.kw)
                     except _Abandon:
@@ -1246,10 +1282,23 @@ def run_real(case: dict, fault=None, mode="exn", fsize=None) -> dict:
         except BaseException as e:  # injected BaseException / FileNotFoundError, or a natural failure
             raised = type(e).__name__
         finally:
+            shim.returned_at = shim.n
+            if hang is None and case.get("workers"):
+                # the function has returned or raised: a worker that is still in the middle of a task has escaped; let it
+                # run on and record what it does (an effect of this save observed after the function returned)
+                try:
+                    _drain_escaped(shim)
+                except BaseException:  # noqa: BLE001
+                    pass
             uninstall()
             _SHIM[0] = None
         obs = _observe(case, root, inomap, exts)
         obs["raised"] = raised
+        ra = shim.returned_at if shim.returned_at is not None else len(shim.events)
+        obs["after_return"] = [list(e) for e in shim.events[ra:]]
+        shim.events, shim.who, shim.sub, shim.task = shim.events[:ra], shim.who[:ra], shim.sub[:ra], shim.task[:ra]
+        obs["sub"] = list(shim.sub)
+        obs["task"] = list(shim.task)
         obs["trace"] = shim.events
         obs["payload"] = {k: list(v) for k, v in shim.payload.items()}
         obs["dest_seen"] = [os.path.relpath(d, root) if os.path.isabs(d) else d for d in shim.dest_seen]
@@ -1266,6 +1315,46 @@ def run_real(case: dict, fault=None, mode="exn", fsize=None) -> dict:
         uninstall()
         core._EXTERNAL_TENSOR_COPY_CHUNK_SIZE = old_chunk
         shutil.rmtree(root, ignore_errors=True)
+
+
+def _drain_escaped(shim) -> None:
+    """Called when the function under test has returned or raised. Deterministic scheduler: a managed thread that is parked
+    at an effect gate is in the middle of a task — it is given the turn until it has no effect left. Real pool: the pool's
+    worker threads that are still alive are joined. Whatever they do is recorded after `shim.returned_at`."""
+    sc = _SCHED[0]
+    if sc is not None:
+        def quiet():
+            return not any(r is None for r in list(sc.parked.values())) and sc.active is None
+
+        for _ in range(400):
+            if quiet():
+                break
+            try:
+                sc.drive(quiet)
+            except DetHang:
+                break
+        return
+    import threading
+
+    me = threading.current_thread()
+    for t in threading.enumerate():
+        if t is not me and t.name.startswith("ThreadPoolExecutor"):
+            t.join(5.0)
+
+
+def _wps(case: dict) -> int:
+    """`workers_per_shard` (external_data.py 877-878) of a concurrent sharded save."""
+    n = len(case.get("jobs", []))
+    w = case.get("workers") or 0
+    if w <= 1 or n <= 1:
+        return 1
+    sw = min(w, n)
+    return max(1, (w - sw) // sw)
+
+
+def _is_nested(case: dict) -> bool:
+    """Concurrent shard drivers whose inner writers are parallel (two levels): model `saveShardedNest`."""
+    return _is_conc(case) and _wps(case) > 1
 
 
 def _is_conc(case: dict) -> bool:
@@ -1477,6 +1566,73 @@ def model_request_conc(case: dict, sched) -> dict:
     return r
 
 
+def model_request_nest(case: dict, sched) -> dict:
+    """`saveShardedNest`: the jobs in shard order (inner writers parallel), the two-level schedule as picks
+    [shard, handle of the inner worker | null = the driver thread, p | null]."""
+    r = model_request(case, [])
+    r["m"] = "asave.nest"
+    r.pop("kind", None)
+    r["par"] = True
+    r["sched"] = sched
+    return r
+
+
+def sched2_of(o: dict, pm: dict, upto=None) -> list:
+    """The two-level schedule a real run followed: one pick per effect (shard, inner worker, the task it works on, failed ->
+    bytes written)."""
+    out = []
+    trace, who, sub, task = o["trace"], o["who"], o["sub"], o["task"]
+    for i, ev in enumerate(trace if upto is None else trace[:upto]):
+        out.append([who[i] if who[i] is not None else 10**6, sub[i], task[i] if sub[i] is not None else None, (pm.get(i, 0) if ev[-1] else None)])
+    return out
+
+
+def _abandoned_tasks(case: dict, obs: dict) -> list:
+    """Trace language of FAULTED writer blocks: every task an inner worker started (`seekw`) runs to its end — all bytes of
+    a tensor that lives at that offset — or ends in a failed effect, before its handle is closed / the save goes on. Returns
+    the tasks that were left in the middle (a writer that does not wait for its running workers)."""
+    if not case.get("workers") or "trace" not in obs:
+        return []
+    _ALIGN[0] = (case["alignment"], case["align_threshold"]) if case.get("alignment") else None
+    if case["api"] == "sharded":
+        groups = {k: [case["tensors"][i] for i in idx] for k, (_n, idx) in enumerate(case.get("jobs", []))}
+    else:
+        groups = {None: _big(case)}
+    want: dict = {}
+    for k, ts in groups.items():
+        for t, off in zip(ts, _layout(ts)):
+            want.setdefault((k, off), set()).add(len(t["bytes"]))
+    who = obs.get("who") or [None] * len(obs["trace"])
+    keyed = any(w is not None for w in who)
+    cur: dict = {}
+    bad = []
+
+    def end(key):
+        st = cur.pop(key, None)
+        if st is not None and not st[2]:
+            lens = want.get((key[0], st[0])) if keyed else set().union(*[v for (kk, o), v in want.items() if o == st[0]] or [set()])
+            if st[1] not in (lens or set()):
+                bad.append({"shard": key[0], "handle": key[1], "offset": st[0], "written": st[1]})
+
+    for i, ev in enumerate(obs["trace"]):
+        name, k = ev[0], (who[i] if keyed else None)
+        if name == "seekw":
+            end((k, ev[1]))
+            cur[(k, ev[1])] = [ev[2], 0, bool(ev[-1])]
+        elif name == "writew":
+            st = cur.get((k, ev[1]))
+            if st is not None:
+                if ev[-1]:
+                    st[2] = True
+                else:
+                    st[1] += ev[2]
+        elif name == "closew":
+            end((k, ev[1]))
+    for key in list(cur):
+        end(key)
+    return bad
+
+
 def sched_of(trace: list, who: list, pm: dict, upto=None) -> list:
     """The schedule a real run followed: one pick per effect (the shard that performed it; failed -> bytes written)."""
     out = []
@@ -1574,6 +1730,13 @@ def oracle(part, case: dict, obs: dict, fault, mode: str) -> None:
     dest = _rdest(case)  # the file the (possibly symlinked) destination resolves to
     pre = case["pre"]
     tag = {"case": case, "fault": fault, "mode": mode}
+    if mode not in ("crash", "exn-crash") and case.get("workers"):
+        # the exception (or the result) reaches the caller only after every worker of this save has stopped
+        if obs.get("after_return"):
+            part.fail(f"{where}:effect-after-return", "an effect of this save was performed by a worker thread after the function had returned or raised (the writer did not wait for its running workers)", {**tag, "after_return": obs["after_return"][:6]})
+        left = _abandoned_tasks(case, obs)
+        if left:
+            part.fail(f"{where}:task-abandoned", "a task an inner worker had started neither ran to its end nor failed before the writer went on (closing the handles / clean-up / os.replace)", {**tag, "tasks": left[:4]})
     if case["api"] != "sharded" and _loops(case, case["dest"]):
         # D360 (observed, not part of the C08 statement): the request is a cyclic symbolic link; os.path.realpath
         # gives up and the save replaces a link of the cycle by the new regular file. No data file existed behind
@@ -1752,6 +1915,11 @@ def _fault_name(obs, fault):
 # --------------------------------------------------------------------------- one case, all faults
 
 
+def ctx_fsize_all() -> int:
+    """Saves of at most this many bytes get the kernel-level fault (RLIMIT_FSIZE) at every byte position."""
+    return 64
+
+
 def fault_points(trace: list) -> list:
     pts = []
     for k, ev in enumerate(trace):
@@ -1805,16 +1973,19 @@ def check_case(part, case: dict, crash: bool = True, only=None) -> None:
         # object): faults *inside* them are produced by the kernel — the temporary file may not grow beyond L bytes
         # (short write, then EFBIG) for L at the start, in the middle and one byte before the end of the new file
         total = len(expected_image(case))
-        for L in sorted({0, 1, total // 2, max(total - 1, 0)}):
+        # (wave 4: EVERY byte position of a small save, not only start / middle / end)
+        for L in (range(total) if total <= ctx_fsize_all() else sorted({0, 1, total // 2, max(total - 1, 0)})):
             if L < total:
                 o = run_real(case, None, "exn", fsize=L)
                 part.count("fd_fsize_raised:" + str(o["raised"] is not None))
+                part.count("fd_fsize_every_byte:" + str(total <= ctx_fsize_all()))
                 runs.append((None, "fsize", o))
     linkL = use_model and uses_links_model(case)
     par = bool(case.get("workers"))  # schedule dependent: the model gets the writer effects each run observed
     det = case.get("det") is not None  # deterministic executor: the schedule is a function of the seed
     shL = use_model and case["api"] == "sharded" and bool(case.get("links")) and not par
     shAll = use_model and case["api"] == "sharded" and par and det
+    nested = shAll and _is_nested(case)  # inner writers are parallel: two-level model `saveShardedNest`
     tag0 = {"case": case, "fault": None, "mode": "exn"}
     # per-case model questions, asked in one batch together with the runs (below)
     pre_reqs: dict = {}
@@ -1836,7 +2007,7 @@ def check_case(part, case: dict, crash: bool = True, only=None) -> None:
             # the observed schedule of the real parallel writer is a word of the model's trace language (`parValid`)
             pre_reqs["parvalid"] = {"m": "asave.parvalid", "tensors": tj, "cb": case["cb"], "maxWorkers": case["workers"], "writer": writer_of(base_obs)}
 
-    if shAll:
+    if shAll and not nested:
         # tie between the concurrent model and the sequential one: under the sequential schedule `saveShardedConc`
         # performs the effects of `saveShardedAll` and ends with the same directory
         pre_reqs["concseq"] = model_request_conc(case, "seq")
@@ -1907,6 +2078,24 @@ def check_case(part, case: dict, crash: bool = True, only=None) -> None:
             return model_request_L(case, fl)
         if shL:
             return model_request_shardedL(case, fl)
+        if nested:
+            # two levels (shard drivers x inner workers): the model follows the schedule the run followed at both levels
+            def pick_at(o, k, p):
+                return [o["who"][k] if o["who"][k] is not None else 10**6, o["sub"][k], o["task"][k] if o["sub"][k] is not None else None, p]
+
+            if mode in ("exn", "base"):
+                return model_request_nest(case, sched2_of(obs, pmap_of(f)))
+            if mode == "crash":
+                k0, p0 = fl[0]
+                if k0 >= len(trace0):
+                    return None
+                return model_request_nest(case, sched2_of(base_obs, {}, upto=k0) + [pick_at(base_obs, k0, p0)])
+            twin = next((o for (g, m2, o) in runs if m2 == "exn" and g == f), None)
+            if twin is None or max(k for k, _ in fl) >= len(twin["trace"]):
+                return None
+            kl = max(k for k, _ in fl)
+            pm = pmap_of(f)
+            return model_request_nest(case, sched2_of(twin, pm, upto=kl) + [pick_at(twin, kl, pm[kl])])
         if shAll:
             # concurrent shard drivers, interleaved effect by effect: the model follows the schedule the run followed
             if mode in ("exn", "base"):
@@ -1976,7 +2165,7 @@ def check_case(part, case: dict, crash: bool = True, only=None) -> None:
             api=case["api"],
             mode=mode,
             compared_with_model=mo is not None,
-            model_kind=("none" if mo is None else "links" if linkL else "sharded-links" if shL else "sharded-conc" if shAll else "marked" if (par and det) else "writer" if par else case["api"]),
+            model_kind=("none" if mo is None else "links" if linkL else "sharded-links" if shL else "sharded-nest" if nested else "sharded-conc" if shAll else "marked" if (par and det) else "writer" if par else case["api"]),
             variant=case.get("label", "plain"),
             dest_exists=_rdest(case) in case["pre"],
             link_chain=_chain_len(case),
@@ -2009,9 +2198,18 @@ def check_case(part, case: dict, crash: bool = True, only=None) -> None:
             part.disagree("the model cannot resolve the destination", tagr)
             continue
         cleanup_failed = any(ev[0].rstrip("!") in ("remove", "rmdir") and ev[-1] for ev in obs.get("trace", []))
+        if nested:
+            # hypothesis of C08_sharded_concurrent_nested_crash evaluated on the run; the model's complete bytes per shard
+            # against the independent layout of the harness
+            part.count("hyp_nest_jobOk:" + str(all(mo["jobOk"])))
+            part.count("nest_parallel_shards:" + str(sum(1 for x in mo["parallel"] if x)))
+            if mo["nBytes"] != [_shard_image(case, idx) for _n, idx in case["jobs"]]:
+                part.disagree("complete bytes of a shard (nBytes): model != layout of the harness", tagr, mo["nBytes"], [_shard_image(case, idx) for _n, idx in case["jobs"]])
+            mo["cleanFaults"] = not any(x[-1] and x[2] in ("remove", "rmdir") for x in mo["trace"])
+            mo["writerBodies"] = True
         if shAll:
             # hypotheses of C08_sharded_concurrent_exception evaluated on the run (shares in the evidence)
-            if mode in ("exn", "base"):  # (a crash run has no "the driver returned")
+            if mode in ("exn", "base") and not nested:  # (a crash run has no "the driver returned")
                 part.count("hyp_conc_preflight_passed:" + str(not mo["refused"]))
                 part.count("hyp_conc_allDone:" + str(mo["allDone"]))
                 part.count("hyp_conc_cleanFaults:" + str(mo["cleanFaults"]))
@@ -2023,6 +2221,8 @@ def check_case(part, case: dict, crash: bool = True, only=None) -> None:
             mtrace = [list(x) for x in mo["trace"]]
             if shAll:
                 rtrace = [[w] + list(ev) for w, ev in zip(obs["who"], obs["trace"])]
+                if nested:
+                    rtrace = [[w, sb] + list(ev) for w, sb, ev in zip(obs["who"], obs["sub"], obs["trace"])]
                 if mtrace != rtrace:
                     part.disagree("effect trace of the interleaved shard drivers: model != implementation", tagr, mtrace, rtrace)
                 mtrace = obs["trace"]
@@ -2529,6 +2729,29 @@ def gen_sharded_det(rng) -> dict:
     return case
 
 
+def gen_sharded_nested(rng) -> dict:
+    """Two levels: concurrent shard drivers (2..3 shards) with max_workers >= 3 * shards, so that every shard gets
+    `workers_per_shard` >= 2 inner workers and a shard with more than one tensor uses the parallel writer — under the
+    deterministic scheduler (both pools). Model `saveShardedNest`."""
+    for _ in range(400):
+        case = gen_sharded(rng)
+        n = len(case["jobs"])
+        if 2 <= n <= 3 and not case.get("links") and any(len(idx) >= 2 for _n, idx in case["jobs"]) and len(case["tensors"]) <= 5:
+            break
+    n = len(case["jobs"])
+    for name, _idx in case["jobs"]:
+        if name in case["pre"] and rng.random() < 0.85:  # (a taken shard name = pre-flight refusal: keep a few)
+            del case["pre"][name]
+    case["workers"] = 3 * n + rng.choice([0, 0, 1, n, 2 * n])
+    if rng.random() < 0.3:
+        case["in_flight"] = rng.choice([1, 8, 64])
+    case["det"] = rng.randrange(1 << 30)
+    case["det_policy"] = rng.choice(["rr", "rand", "rand"])
+    case["model"] = True
+    case["label"] = "sharded-nest"
+    return case
+
+
 def gen_nul(rng) -> dict:
     """An external tensor whose location contains a NUL byte: os.path.samefile raises ValueError while
     the overwritten tensors are collected (oracle only; the model has no such path)."""
@@ -2741,6 +2964,8 @@ def run(ctx: Ctx) -> None:
         cases.append(gen_parallel_det(ctx.rng))
     for _ in range(ctx.pick(10, 100)):
         cases.append(gen_sharded_det(ctx.rng))
+    for _ in range(ctx.pick(6, 60)):
+        cases.append(gen_sharded_nested(ctx.rng))
     base = _new_base()
     try:
         wp = Part()
